@@ -297,3 +297,94 @@ Definition start_client_v (cf : config) (fx : bool) (host : N) (ops : list op) :
       let '(cur, todo, _) := settle_v cf fx (length ops) host (compile_v cf fx host o) t [] in
       {| cl_host := host; cl_cur := cur; cl_todo := todo; cl_crashed := false |}
   end.
+
+(* A second variant flag, for releaseByHandle (fixes/C19-releasebyhandle-notfound-no-decrement.patch):
+     fy = false : when the compare-and-delete of the emptied non-affine block answers "not found", releaseByHandle
+                  goes on and decrements the handle although it released nothing (the pinned code);
+     fy = true  : it returns at once.
+   The driver probes the tree for fy as it does for fx. *)
+Section OpsW.
+  Variable cf : config.
+  Variable fx fy : bool.
+  Let R := cf_retries cf.
+
+  (* ipamClient.releaseByHandle (one block) *)
+  Fixpoint rbh_one_w (fuel : nat) (c h : N) : prog (res unit) :=
+    match fuel with
+    | O => Ret (inr EOutOfModel)
+    | S f =>
+      g <- get_block c ;;
+      match g with
+      | inr ENotFound => Ret (inl tt)
+      | inr e => Ret (inr e)
+      | inl (b, brev) =>
+        let '(b', n) := blk_release_by_handle b h in
+        match n with
+        | O => Ret (inl tt)
+        | _ =>
+          let after : prog (res unit) := u_ <- dec_handle (cf_stale_cache cf) R h c (N.of_nat n) None ;; Ret (inl tt) in
+          if blk_empty b' && optN_eqb (bk_aff b') None then
+            w <- delete_block c brev ;;
+            match w with
+            | inr EConflict => rbh_one_w f c h
+            | inr ENotFound => if fy then Ret (inl tt) else after
+            | inl _ => after
+            | inr e => Ret (inr e)
+            end
+          else
+            w <- update_block c b' brev ;;
+            match w with
+            | inr EConflict => rbh_one_w f c h
+            | inr e => Ret (inr e)
+            | inl _ => after
+            end
+        end
+      end
+    end.
+
+  Fixpoint rbh_blocks_w (cs : list N) (h : N) : prog result :=
+    match cs with
+    | [] => Ret (ResErr ENone)
+    | c :: t =>
+        r <- rbh_one_w R c h ;;
+        match r with inr e => Ret (ResErr e) | inl _ => rbh_blocks_w t h end
+    end.
+
+  (* ipamClient.ReleaseByHandle *)
+  Definition release_by_handle_w (h : N) (hint : list N) : prog result :=
+    r <- get_handle h ;;
+    match r with
+    | inr e => Ret (ResErr e)
+    | inl (m, _) => rbh_blocks_w (map fst (order_by hint m)) h
+    end.
+
+
+  Definition compile_w (host : N) (o : op) : prog result :=
+    match o with
+    | OpAutoAssign h tag num => auto_assign_v cf fx host h tag num
+    | OpAssignIP h tag a => assign_ip_v cf fx host h tag a
+    | OpRelease opts hint => release_ips cf opts hint
+    | OpReleaseByHandle h hint => release_by_handle_w h hint
+    | OpClaimAffinity c => claim_aff_loop_v cf fx R host c
+    | OpReleaseAffinity c must => release_aff_loop R host c must
+    end.
+End OpsW.
+
+Fixpoint settle_w (cf : config) (fx fy : bool) (fuel : nat) (host : N) (p : prog result) (todo : list op) (done : list result)
+  : option (prog result) * list op * list result :=
+  match p with
+  | Act _ _ => (Some p, todo, done)
+  | Ret r =>
+      match todo, fuel with
+      | o :: t, S f => settle_w cf fx fy f host (compile_w cf fx fy host o) t (done ++ [r])
+      | _, _ => (None, todo, done ++ [r])
+      end
+  end.
+
+Definition start_client_w (cf : config) (fx fy : bool) (host : N) (ops : list op) : client :=
+  match ops with
+  | [] => {| cl_host := host; cl_cur := None; cl_todo := []; cl_crashed := false |}
+  | o :: t =>
+      let '(cur, todo, _) := settle_w cf fx fy (length ops) host (compile_w cf fx fy host o) t [] in
+      {| cl_host := host; cl_cur := cur; cl_todo := todo; cl_crashed := false |}
+  end.
